@@ -6,6 +6,7 @@ import Req.Lemmas.C02H1Simple
 import Req.Lemmas.C02Resp
 import Req.Lemmas.C02H2
 import Req.Lemmas.C02Chunked
+import Req.Lemmas.C02H3
 /-!
 C02 — response fidelity: property theorems.
 
@@ -245,16 +246,21 @@ theorem reread_exact (B : Bytes) (ks : List Nat) :
   · intro hpos hlen
     exact runReads_terminates body_refines_ne body_progress ks _ hinv hpos (by rw [hexp]; exact hlen)
 
-/-- **SetOutput / SetOutputFile.** Whatever the segmentation, the other switches and the
-status: exactly the body is written to the writer / file and no error is recorded. -/
+/-- **SetOutput / SetOutputFile.** Whatever the segmentation, the other switches (including a
+result object, which makes `parseResponseBody` read the body first so that `handleDownload`
+copies the cached bytes) and the status: exactly the body is written to the writer / file and
+no error is recorded. -/
 theorem save_output_exact (cfg : Cfg) (hs : cfg.save = true) (st : Nat) (cks : List Bytes) :
     let r := afterRoundTrip cfg st (Body.transport cks .eof)
     r.out = some cks.flatten ∧ r.err = none := by
-  simp [afterRoundTrip_save cfg st cks hs]
+  exact afterRoundTrip_save cfg st cks hs
 
-/-- A config / status for which `Client.roundTrip` leaves the transport body to the caller. -/
+/-- A config / status for which `Client.roundTrip` leaves the transport body to the caller:
+not saved, auto-read off (or an informational status), and no result object that would make
+`parseResponseBody` read the body. -/
 def StreamCfg (cfg : Cfg) (st : Nat) : Prop :=
-  cfg.save = false ∧ (cfg.clientDisable = true ∨ cfg.reqDisable = true ∨ st ≤ 199)
+  cfg.save = false ∧ (cfg.clientDisable = true ∨ cfg.reqDisable = true ∨ st ≤ 199) ∧
+  ¬ (cfg.result = true ∧ 199 < st ∧ st < 300 ∧ st ≠ 204)
 
 /-- **Streaming without auto-read, any read sizes, then optionally `ToBytes`.** The caller
 gets the live transport body. For every segmentation and every read-size sequence: the
@@ -270,8 +276,8 @@ theorem stream_exact (cfg : Cfg) (st : Nat) (hcfg : StreamCfg cfg st) (cks : Lis
      (lastErr run.1 = none →
         outBytes run.1 ++ (({ r with body := some run.2 } : Resp).toBytes).1.1 = cks.flatten ∧
         (({ r with body := some run.2 } : Resp).toBytes).1.2 = .ok)) := by
-  obtain ⟨hs, hd⟩ := hcfg
-  simp only [afterRoundTrip_stream cfg st cks .eof hs hd]
+  obtain ⟨hs, hd, hres⟩ := hcfg
+  simp only [afterRoundTrip_stream cfg st cks .eof hs hd hres]
   refine ⟨by trivial, by trivial, by trivial, ?_, ?_, ?_⟩
   · exact runReads_prefix body_refines ks _ (rfl : BodyInv (Body.transport cks .eof))
   · intro he
@@ -323,7 +329,7 @@ theorem observe_paths_agree (B : Bytes)
 /-! Non-vacuity: body "hello" delivered as "he","","llo"; auto-read, then Bytes, Read(2),
 ToBytes, Read(9), Read(1): the cache ops show "hello", the reads stream "he","llo", EOF. -/
 example :
-    ((afterRoundTrip ⟨false, false, false⟩ 200 (Body.transport [[104, 101], [], [108, 108, 111]] .eof)).run
+    ((afterRoundTrip ⟨false, false, false, false⟩ 200 (Body.transport [[104, 101], [], [108, 108, 111]] .eof)).run
         [.bytes, .read 2, .toBytes, .read 9, .read 1]).1 =
       [(.bytes, .cached (some [104, 101, 108, 108, 111])),
        (.read 2, .data [104, 101] .ok),
@@ -333,7 +339,7 @@ example :
 
 /-! Non-vacuity of the streaming hypotheses: DisableAutoReadResponse, reads 1,1 then ToBytes. -/
 example :
-    let r := afterRoundTrip ⟨false, true, false⟩ 200 (Body.transport [[104, 101], [108, 108, 111]] .eof)
+    let r := afterRoundTrip ⟨false, true, false, false⟩ 200 (Body.transport [[104, 101], [108, 108, 111]] .eof)
     (r.run [.read 1, .read 1, .toBytes, .bytes]).1 =
       [(.read 1, .data [104] .ok), (.read 1, .data [101] .ok),
        (.toBytes, .data [108, 108, 111] .ok), (.bytes, .cached (some [108, 108, 111]))] := by decide
@@ -430,5 +436,54 @@ example :
        .ev (.data [108, 108, 111] false true), .read 1, .read 9, .read 1]).1 =
       [none, some ([104, 101], none), none, some ([108], none), some ([108, 111], none),
        some ([], some .eof)] := by decide
+
+/-! ## Part D — HTTP/3 receive path -/
+
+/-- **stream_body_exact (HTTP/3).** After the response head, the origin wrote the frames `frs`
+(DATA frames — also empty ones — and frames of types the parser skips: unknown, GREASE,
+CANCEL_PUSH …; every frame header any valid varint encoding of type and payload length),
+optionally a trailer HEADERS frame `tr` (QPACK-decoded field list as side input, accepted by
+`parseTrailers`), then FIN. A `Content-Length`, if declared (`cl`), equals the total DATA
+payload length. For EVERY segmentation `segs` of that byte stream into QUIC stream reads and
+EVERY sequence `ks` of caller read sizes:
+
+* the bytes handed out are a prefix of the concatenated DATA payloads;
+* a run that ends with an error ends with `io.EOF`; then the bytes are EXACTLY the payload
+  concatenation and `Response.Trailer` holds the trailer fields;
+* with positive read sizes and more reads than bytes on the stream the run does end. -/
+theorem stream_body_exact_h3 (frs : List WFrame) (hfrs : ∀ f ∈ frs, BodyFrameOK f)
+    (tr : Option WTrailer) (maxH : Nat) (htr : ∀ t, tr = some t → t.OK maxH)
+    (cl : Option Nat) (hcl : cl = none ∨ cl = some (h3DataOf frs).length)
+    (segs : List Bytes) (hsegs : segs.flatten = framesWire frs ++ trailerWire tr) (ks : List Nat) :
+    let run := runReads H3Body.read (h3Start segs tr maxH cl) ks
+    (∃ u, h3DataOf frs = outBytes run.1 ++ u) ∧
+    (∀ e, lastErr run.1 = some e →
+      e = .eof ∧ outBytes run.1 = h3DataOf frs ∧ ∀ t, tr = some t → run.2.str.trailer = some t.parsed) ∧
+    ((∀ k ∈ ks, 0 < k) → segs.flatten.length < ks.length → ∃ e, lastErr run.1 = some e) := by
+  have hpos := h3Start_pos segs frs hfrs tr maxH cl hcl hsegs
+  have R := h3_refines tr maxH htr
+  refine ⟨runReadsR_prefix R ks _ _ hpos, ?_, ?_⟩
+  · intro e he
+    have hfin := runReadsR_final R (fun e b' => e = .eof ∧ ∀ t, tr = some t → b'.str.trailer = some t.parsed)
+      (fun b E k d e b' hr h => by
+        obtain ⟨h1, _, _, h4⟩ := (h3_read tr maxH htr b E k hr d (some e) b' h).2 e rfl
+        exact ⟨h1, h4⟩) ks _ _ hpos e he
+    obtain ⟨rfl, h2⟩ := hfin
+    exact ⟨rfl, runReadsR_eof R ks _ _ hpos .eof he rfl, h2⟩
+  · intro hp hlen
+    refine runReadsR_terminates R _ (h3_progress tr maxH htr) ks _ _ hpos hp ?_
+    rcases hcl with rfl | rfl <;> simpa [h3Start] using hlen
+
+/-! Non-vacuity: DATA "he" | GREASE frame (type 0x21, 1 byte) | empty DATA | DATA "llo",
+Content-Length 5, the stream cut into 5 pieces, reads of 4 bytes. -/
+example :
+    (runReads H3Body.read
+        (h3Start [[0, 2, 104], [101, 33, 1], [9, 0, 0, 0], [3, 108, 108], [111]] none 1000 (some 5))
+        [4, 4, 4, 4, 4, 4, 4]).1 =
+      [([104], none), ([101], none), ([], none), ([108, 108], none), ([111], none), ([], some .eof)] := by
+  decide
+
+example : BodyFrameOK ⟨[33, 1], 33, [9]⟩ := by
+  refine ⟨fun R => by simp [decHdr, decVarint, decVarintTail], Or.inr (by simp [skippable])⟩
 
 end Req.Props.C02
